@@ -214,7 +214,10 @@ _BI_PARAMS = {"str_length": ["string"], "str_concat": ["string", "string"], "str
               "str_equals": ["string", "string"], "str_substring": ["string", "int", "int"], "char_at": ["string", "int"],
               "int_to_string": ["int"], "abs": ["num"], "min": ["num", "num"], "max": ["num", "num"],
               "array_length": ["array"], "at": ["array", "int"], "array_push": ["array", None], "array_set": ["array", "int", None],
-              "array_pop": ["array"], "array_slice": ["array", "int", "int"]}
+              "array_pop": ["array"], "array_slice": ["array", "int", "int"],
+              "string_to_int": ["string"], "char_to_lower": ["int"], "char_to_upper": ["int"], "digit_value": ["int"],
+              "is_digit": ["int"], "is_alpha": ["int"], "is_upper": ["int"], "is_lower": ["int"], "is_whitespace": ["int"],
+              "string_from_char": ["int"], "cast_float": ["num"], "sqrt": ["float"], "floor": ["float"], "ceil": ["float"], "round": ["float"]}
 _LIT_KIND = {"int": "int", "str": "string", "bool": "bool", "float": "float"}
 
 
